@@ -90,7 +90,7 @@ Plan gen_file(uint64_t seed, const GenOpts& g) {
     if (B == "B") { p.ops.push_back(mk("B", "new")); Op l2 = mk("B", "load"); l2.set("lp", "0"); l2.set("via", "real"); p.ops.push_back(l2); }
     Op r = fop(B, "read"); r.set("kind", "set"); r.set("name", "s"); r.seti("faulted", 1); p.ops.push_back(r);
     Op q = mk(B, "query"); q.set("what", "accessors"); p.ops.push_back(q);
-    Op po = fop(B, "post"); po.set("good", "0"); p.ops.push_back(po);
+    Op po = fop(B, "post"); po.set("good", "0"); po.seti("strict", 0); p.ops.push_back(po);
   } else if (sc == 4 || sc == 5) {
     // C14: basis / state files restore what was saved
     int n = rng.range(1, 2);
